@@ -397,7 +397,7 @@ def run(rep):
             return "content[line_start..line_end]: both come from the line table (ascending char boundaries <= len by R6) or content.len()"
         return None
     sites.panic_rule(rep, F, cone, "R2-panic-free-cone", "spec/c23_sites.txt", extra_discharge=by_rules)
-    rep.floor("R2-panic-free-cone", 6)
+    rep.floor("R2-panic-free-cone", 3)
 
 
 def _derives_from_field(fn, o, adt, name, depth=8):
